@@ -15,7 +15,7 @@ Reg == [c \in Clients |->
                     rtypes |-> {"code","id_token","id_token token"}, uris |-> {"ucx"}, postLogout |-> {"plcx"}, at |-> "jwt"]
     [] c = "cp" -> [auth |-> "none",  app |-> "native", grants |-> {"code","refresh","device"},
                     rtypes |-> {"code"}, uris |-> {"ucp"}, postLogout |-> {}, at |-> "opaque"]
-    [] c = "cj" -> [auth |-> "pkjwt", app |-> "web",    grants |-> {"code","refresh","bearer"},
+    [] c = "cj" -> [auth |-> "pkjwt", app |-> "web",    grants |-> {"code","refresh","bearer","device"},
                     rtypes |-> {"code"}, uris |-> {"ucj"}, postLogout |-> {"plcj"}, at |-> "jwt"]
     [] c = "cs" -> [auth |-> "basic", app |-> "web",    grants |-> {"cc","te"},
                     rtypes |-> {}, uris |-> {}, postLogout |-> {}, at |-> "jwt"]
